@@ -74,15 +74,30 @@ fn draw<B: Fld>(g: &mut Sm) -> u128 {
     }
 }
 
-/// `n` elements of extension degree `d` as canonical coordinates, element-major.
-/// `deg`: None = all n coefficients random; Some(None) = zero polynomial; Some(Some(k)) = degree exactly k.
-fn gen_coords<B: Fld>(seed: u64, n: usize, d: usize, deg: Option<Option<usize>>) -> Vec<u128> {
+/// shapes of generated coefficient / value vectors (token): `r` random, `z` all zero, `<k>` degree exactly k,
+/// `m<k>` the monomial x^k, `a` all elements equal, `s<k>` a single non-zero element at position k, `t` alternating
+/// (period 2), `b` every coordinate p-1, `i` zeros at the interior positions ≡ 1 mod 3
+#[derive(Clone, Copy, Debug)]
+enum Shape {
+    Rand,
+    Zero,
+    Exact(usize),
+    Mono(usize),
+    AllEq,
+    Single(usize),
+    Alt,
+    Top,
+    Holes,
+}
+
+/// `n` elements of extension degree `d` as canonical coordinates, element-major (always n*d draws, then shaped).
+fn gen_coords<B: Fld>(seed: u64, n: usize, d: usize, sh: Shape) -> Vec<u128> {
     let mut g = Sm(seed);
     let mut v: Vec<u128> = (0..n * d).map(|_| draw::<B>(&mut g) % B::MOD).collect();
-    match deg {
-        None => {},
-        Some(None) => v.iter_mut().for_each(|x| *x = 0),
-        Some(Some(k)) => {
+    match sh {
+        Shape::Rand => {},
+        Shape::Zero => v.iter_mut().for_each(|x| *x = 0),
+        Shape::Exact(k) => {
             for x in v.iter_mut().skip((k + 1) * d) {
                 *x = 0;
             }
@@ -90,8 +105,52 @@ fn gen_coords<B: Fld>(seed: u64, n: usize, d: usize, deg: Option<Option<usize>>)
                 v[k * d] = 1;
             }
         },
+        Shape::Mono(k) => {
+            v.iter_mut().for_each(|x| *x = 0);
+            if k < n {
+                v[k * d] = 1;
+            }
+        },
+        Shape::AllEq => {
+            for i in 0..n * d {
+                v[i] = v[i % d];
+            }
+        },
+        Shape::Single(k) => {
+            for i in 0..n * d {
+                if i / d != k {
+                    v[i] = 0;
+                }
+            }
+            if k < n && v[k * d..(k + 1) * d].iter().all(|x| *x == 0) {
+                v[k * d] = 1;
+            }
+        },
+        Shape::Alt => {
+            for i in 0..n * d {
+                v[i] = v[(i / d % 2) * d + i % d];
+            }
+        },
+        Shape::Top => v.iter_mut().for_each(|x| *x = B::MOD - 1),
+        Shape::Holes => {
+            for i in 0..n * d {
+                if i / d % 3 == 1 {
+                    v[i] = 0;
+                }
+            }
+        },
     }
     v
+}
+
+/// shape of column `c` of a generated matrix: zero, low-degree and constant-valued columns among the random ones
+fn col_shape(c: usize, n: usize) -> Shape {
+    match c % 5 {
+        1 => Shape::Zero,
+        3 => Shape::Exact(c % n.max(1)),
+        4 => Shape::AllEq,
+        _ => Shape::Rand,
+    }
 }
 
 fn to_elems<B: Fld, E: FieldElement<BaseField = B>>(coords: &[u128]) -> Vec<E> {
@@ -284,11 +343,17 @@ fn p64(s: &str) -> Option<u64> {
 fn p128(s: &str) -> Option<u128> {
     s.parse::<u128>().ok()
 }
-fn pdeg(s: &str) -> Option<Option<Option<usize>>> {
+fn pdeg(s: &str) -> Option<Shape> {
     match s {
-        "r" => Some(None),
-        "z" => Some(Some(None)),
-        _ => pu(s).map(|k| Some(Some(k))),
+        "r" => Some(Shape::Rand),
+        "z" => Some(Shape::Zero),
+        "a" => Some(Shape::AllEq),
+        "t" => Some(Shape::Alt),
+        "b" => Some(Shape::Top),
+        "i" => Some(Shape::Holes),
+        _ if s.starts_with('m') => pu(&s[1..]).map(Shape::Mono),
+        _ if s.starts_with('s') => pu(&s[1..]).map(Shape::Single),
+        _ => pu(s).map(Shape::Exact),
     }
 }
 fn poff<B: Fld>(s: &str) -> Option<u128> {
@@ -384,8 +449,10 @@ fn exec_e<B: Fld + ExtensibleField<2> + ExtensibleField<3>, E: FieldElement<Base
             }
             o
         },
-        ["interp", n, twn, seed] | ["interpo", n, twn, seed, _] => {
+        ["interp", n, twn, seed] | ["interp", n, twn, seed, _] | ["interpo", n, twn, seed, _] | ["interpo", n, twn, seed, _, _] => {
             let with_off = t[0] == "interpo";
+            let sh_tok = if with_off { t.get(5) } else { t.get(4) };
+            let Some(sh) = sh_tok.map_or(Some(Shape::Rand), |x| pdeg(x)) else { return bad() };
             let (Some(n), Some(twn), Some(seed)) = (pu(n), pu(twn), p64(seed)) else { return bad() };
             let off = if with_off {
                 match poff::<B>(t[4]) {
@@ -395,7 +462,7 @@ fn exec_e<B: Fld + ExtensibleField<2> + ExtensibleField<3>, E: FieldElement<Base
             } else {
                 1
             };
-            let ys = gen_coords::<B>(seed, n, d, None);
+            let ys = gen_coords::<B>(seed, n, d, sh);
             let doc = bad_domain::<B>(n, twn, 1, off);
             let site = t[0];
             let r = run(&mut o, format!("{}.{}.panic", f, site), doc, || {
@@ -472,7 +539,7 @@ fn exec_e<B: Fld + ExtensibleField<2> + ExtensibleField<3>, E: FieldElement<Base
         },
         ["fft", n, twn, seed] => {
             let (Some(n), Some(twn), Some(seed)) = (pu(n), pu(twn), p64(seed)) else { return bad() };
-            let poly = gen_coords::<B>(seed, n, d, None);
+            let poly = gen_coords::<B>(seed, n, d, Shape::Rand);
             // fft_in_place itself documents only the twiddle length; sizes that are not powers of two hit
             // its debug assertions
             let doc = bad_domain::<B>(n, twn, 1, 1);
@@ -501,7 +568,7 @@ fn exec_e<B: Fld + ExtensibleField<2> + ExtensibleField<3>, E: FieldElement<Base
             else {
                 return bad();
             };
-            let input = gen_coords::<B>(seed, n, d, None);
+            let input = gen_coords::<B>(seed, n, d, Shape::Rand);
             let well_formed = pow2(n)
                 && n >= 2
                 && n.trailing_zeros() <= B::TWO_ADICITY
@@ -549,7 +616,7 @@ fn exec_e<B: Fld + ExtensibleField<2> + ExtensibleField<3>, E: FieldElement<Base
         },
         ["perm", n, seed] => {
             let (Some(n), Some(seed)) = (pu(n), p64(seed)) else { return bad() };
-            let input = gen_coords::<B>(seed, n, d, None);
+            let input = gen_coords::<B>(seed, n, d, Shape::Rand);
             let r = run(&mut o, format!("{}.perm.panic", f), !pow2(n), || {
                 let mut p: Vec<E> = to_elems::<B, E>(&input);
                 FftInputs::permute(&mut p[..]);
@@ -643,7 +710,7 @@ fn exec_e<B: Fld + ExtensibleField<2> + ExtensibleField<3>, E: FieldElement<Base
             };
             // ColMatrix::new documents: at least one column, more than one row, rows a power of two
             let doc = cols == 0 || bad_domain::<B>(n, n, blowup, off);
-            let vals: Vec<Vec<u128>> = (0..cols).map(|c| gen_coords::<B>(seed.wrapping_add(c as u64), n, d, None)).collect();
+            let vals: Vec<Vec<u128>> = (0..cols).map(|c| gen_coords::<B>(seed.wrapping_add(c as u64), n, d, col_shape(c, n))).collect();
             let r = run(&mut o, format!("{}.colmat.panic", f), doc, || {
                 let m0 = ColMatrix::new(vals.iter().map(|c| to_elems::<B, E>(c)).collect::<Vec<Vec<E>>>());
                 let polys = m0.interpolate_columns();
@@ -732,7 +799,7 @@ fn rowmat<B: Fld, E: FieldElement<BaseField = B>, const W: usize>(
     // documented: ColMatrix::new (≥ 1 column, ≥ 2 rows, power of two); Segment::new (the domain is strictly
     // larger than the polynomial: blowup ≥ 2)
     let doc = cols == 0 || blowup < 2 || bad_domain::<B>(n, n, blowup, off);
-    let polys: Vec<Vec<u128>> = (0..cols).map(|c| gen_coords::<B>(seed.wrapping_add(c as u64), n, d, None)).collect();
+    let polys: Vec<Vec<u128>> = (0..cols).map(|c| gen_coords::<B>(seed.wrapping_add(c as u64), n, d, col_shape(c, n))).collect();
     let r = run(&mut o, format!("{}.rowmat.panic", f), doc, || {
         let cm = ColMatrix::new(polys.iter().map(|c| to_elems::<B, E>(c)).collect::<Vec<Vec<E>>>());
         let rm: RowMatrix<E> = if gen_off {
@@ -869,7 +936,7 @@ fn airdom<B: Fld + ExtensibleField<2> + ExtensibleField<3>, E: FieldElement<Base
         || !(2..=128).contains(&lde)
         || lde < ce
         || (n * lde).trailing_zeros() > B::TWO_ADICITY;
-    let polys: Vec<Vec<u128>> = (0..cols).map(|c| gen_coords::<B>(seed.wrapping_add(c as u64), n, d, None)).collect();
+    let polys: Vec<Vec<u128>> = (0..cols).map(|c| gen_coords::<B>(seed.wrapping_add(c as u64), n, d, col_shape(c, n))).collect();
     let r = run(&mut o, format!("{}.airdom.panic", f), doc, || {
         let options = ProofOptions::new(1, lde, 0, FieldExtension::None, 4, 31);
         let ctx = AirContext::<B>::new(
@@ -1073,6 +1140,11 @@ fn gen_all(rng: &mut Rng, tier: Tier, nrand: usize, emit: &mut dyn FnMut(String)
     let thorough = tier == Tier::Thorough;
     let maxk: u32 = if thorough { 14 } else { 12 };
     let fields: [(&str, &[usize], u128); 3] = [("f64", &[1, 2, 3], M64), ("f62", &[1, 2, 3], M62), ("f128", &[1, 2], M128)];
+    // generator, two-adic root and two-adicity of each field (for structured offsets)
+    fn consts<B: Fld>() -> (u128, u128, u32) {
+        (B::GENERATOR.canon(), B::TWO_ADIC_ROOT_OF_UNITY.canon(), B::TWO_ADICITY)
+    }
+    let fconsts = [consts::<f64::BaseElement>(), consts::<f62::BaseElement>(), consts::<f128::BaseElement>()];
     let rnd_off = |rng: &mut Rng, m: u128| -> String {
         let v = rng.u128() % (m - 1) + 1;
         format!("{}", v)
@@ -1096,9 +1168,121 @@ fn gen_all(rng: &mut Rng, tier: Tier, nrand: usize, emit: &mut dyn FnMut(String)
     for (s, i) in [(0u64, 0u64), (3, 1), (6, 5), (8, 8), (8, 9), (1, 1), (12, 3)] {
         emit(format!("u permidx {} {}", s, i));
     }
-    for (f, exts, m) in fields.iter() {
+    for (fi, (f, exts, m)) in fields.iter().enumerate() {
+        let (gen_c, root_c, adicity) = fconsts[fi];
+        // offsets: 1, GENERATOR, GENERATOR^-1, -1, an element of order 4, an element of the subgroup of order 2^j, random
+        let special_offsets = |rng: &mut Rng, j: u32| -> Vec<String> {
+            let w = |k: u32| powmod(root_c, 1u128 << (adicity - k.min(adicity)), *m);
+            vec![
+                "1".to_string(),
+                "g".to_string(),
+                format!("{}", invmod(gen_c, *m)),
+                format!("{}", *m - 1),
+                format!("{}", w(2)),
+                format!("{}", w(j.max(1))),
+                format!("{}", mulmod(gen_c, w(j.max(1)), *m)),
+                rnd_off(rng, *m),
+            ]
+        };
         for &d in exts.iter() {
             let base = d == 1;
+            // ---- structured data: zero, constants, monomials, zero high coefficients, all-equal / alternating / single
+            // non-zero vectors, boundary values, interior zeros — as coefficients and as evaluations
+            let shape_ks: &[u32] = if base { &[1, 2, 3, 5, 8] } else { &[2, 5] };
+            for &k in shape_ks {
+                let n = 1usize << k;
+                let shapes: Vec<String> = vec![
+                    "z".into(), "a".into(), "t".into(), "b".into(), "i".into(), "m0".into(), "m1".into(), format!("m{}", n - 1),
+                    format!("m{}", n / 2), "s0".into(), format!("s{}", n - 1), format!("s{}", n / 2), "0".into(), "1".into(),
+                    format!("{}", n / 2), format!("{}", n - 2),
+                ];
+                let offs = special_offsets(rng, k + 2);
+                for (j, sh) in shapes.iter().enumerate() {
+                    let off = &offs[(j + k as usize) % offs.len()];
+                    emit(format!("{} {} evalo {} {} {} {} {} {}", f, d, n, n, rng.u64(), sh, 1usize << (j % 4), off));
+                    emit(format!("{} {} deg {} {} {} {}", f, d, n, rng.u64(), sh, off));
+                    if j % 2 == 0 || k == 3 {
+                        emit(format!("{} {} eval {} {} {} {}", f, d, n, n, rng.u64(), sh));
+                        emit(format!("{} {} rt {} {} {} {}", f, d, n, rng.u64(), sh, off));
+                    }
+                    if j < 12 {
+                        emit(format!("{} {} interp {} {} {} {}", f, d, n, n, rng.u64(), sh));
+                        emit(format!("{} {} interpo {} {} {} {} {}", f, d, n, n, rng.u64(), off, sh));
+                    }
+                }
+            }
+            // ---- every offset class for every offset-taking entry point (offset inside / outside the subgroup, -1, g^-1)
+            for k in [1u32, 3, 6] {
+                let n = 1usize << k;
+                for bk in [0u32, 2] {
+                    for off in special_offsets(rng, k + bk) {
+                        emit(format!("{} {} evalo {} {} {} r {} {}", f, d, n, n, rng.u64(), 1usize << bk, off));
+                        if bk == 0 {
+                            emit(format!("{} {} interpo {} {} {} {}", f, d, n, n, rng.u64(), off));
+                            emit(format!("{} {} rt {} {} r {}", f, d, n, rng.u64(), off));
+                            emit(format!("{} {} deg {} {} {} {}", f, d, n, rng.u64(), n / 2, off));
+                        } else if k <= 3 {
+                            emit(format!("{} {} rowmat {} 3 {} {} {} 4", f, d, n.max(2), rng.u64(), 1usize << bk, off));
+                            emit(format!("{} {} colmat {} 3 {} {} {}", f, d, n.max(2), rng.u64(), 1usize << bk, off));
+                        }
+                    }
+                }
+            }
+            // ---- MAX_LOOP = 256 (`stride == count && count < MAX_LOOP`): count/stride on, below and above it
+            if base || d == 2 {
+                for (n, cnt, st, of) in [
+                    (2048usize, 128usize, 128usize, 0usize), (2048, 255, 256, 0), (2048, 255, 256, 1), (2048, 256, 256, 0), (2048, 1, 256, 255),
+                    (2048, 256, 512, 0), (2048, 257, 512, 0), (2048, 257, 512, 255), (2048, 512, 512, 0), (1024, 256, 256, 0), (1024, 255, 256, 1),
+                    (1024, 128, 128, 0), (1024, 127, 128, 1), (512, 256, 256, 0), (512, 128, 128, 0), (4096, 256, 256, 0), (4096, 512, 512, 0),
+                ] {
+                    if !base && n > 1024 {
+                        continue;
+                    }
+                    emit(format!("{} {} fftraw {} {} {} {} {}", f, d, n, rng.u64(), cnt, st, of));
+                }
+            }
+            // ---- segment width N: number of base columns on, below and above N and 2N
+            for w in [1usize, 3, 4, 8, 16] {
+                for cols in [w - 1, w, w + 1, 2 * w - 1, 2 * w, 2 * w + 1] {
+                    if cols == 0 || (!base && (cols + w) % 2 == 1) {
+                        continue;
+                    }
+                    emit(format!("{} {} rowmat 8 {} {} 2 g {}", f, d, cols, rng.u64(), w));
+                }
+            }
+            // ---- LDE domain size on both sides of 1024 (segments' MIN_CONCURRENT_SIZE) with a ragged last segment
+            if base || d == 2 {
+                for (k, blowup) in [(7u32, 4usize), (7, 8), (8, 2), (8, 4), (8, 8), (9, 2), (9, 4)] {
+                    if !base && blowup != 4 {
+                        continue;
+                    }
+                    emit(format!("{} {} rowmat {} 9 {} {} g 8", f, d, 1usize << k, rng.u64(), blowup));
+                }
+            }
+            // ---- sizes beyond 2^16 (casts to u32 / u16-sized quantities): oracle on sampled positions, not modelled
+            if *f != "f128" && d <= 2 {
+                for n in [65536usize, 131072] {
+                    if !base && n > 65536 {
+                        continue;
+                    }
+                    emit(format!("{} {} interp {} {} {}", f, d, n, n, rng.u64()));
+                    emit(format!("{} {} interpo {} {} {} g", f, d, n, n, rng.u64()));
+                    emit(format!("{} {} evalo {} {} {} r 2 g", f, d, n, n, rng.u64()));
+                    if base {
+                        emit(format!("{} {} eval {} {} {} {}", f, d, n, n, rng.u64(), n / 2));
+                        emit(format!("{} {} rt {} {} r g", f, d, n, rng.u64()));
+                        emit(format!("{} {} deg {} {} {} g", f, d, n, rng.u64(), n - 1));
+                    }
+                }
+            }
+            if !base {
+                emit(format!("{} {} perm 8 {}", f, d, rng.u64()));
+                emit(format!("{} {} perm 1024 {}", f, d, rng.u64()));
+                if d == 2 {
+                    emit(format!("{} {} rowmat 1024 5 {} 2 g 8", f, d, rng.u64()));
+                    emit(format!("{} {} colmat 1024 5 {} 2 g", f, d, rng.u64()));
+                }
+            }
             // ---- every size, every transform, offsets 1 / generator / random
             for k in 1..=maxk {
                 let n = 1usize << k;
